@@ -43,7 +43,7 @@ func (*c14) Assumptions() []string {
 type c14Fail struct {
 	kind string
 	stmt func(arg string) string // statement using the int parameter arg; must fail at run time
-	msg  string                   // substring of the expected message
+	msg  string                  // substring of the expected message
 }
 
 var c14Fails = []c14Fail{
